@@ -24,6 +24,12 @@ def check_c08(tier, replay):
         outd = scr.sub("out")
         rc, out = vlib.go_test("./cryptdrv", "TestCryptAll$", dict(VERIF_OUT=outd, CRYPT_KEYS=8 if th else 2, CRYPT_CONC=3000 if th else 300), timeout=2400)
         if rc != 0:
+            import checks_sess
+            cs = checks_sess.crash_signature(out)
+            if cs and cs[0] == "panic":
+                v.violation("C08/ProcessPanic", "a cipher call panicked inside kcp-go: %s\n%s" % (cs[1], out[-2500:]), dict(kind="crypt-run", seed=vlib.seed()))
+                v.cov["evaluations"], v.cov["distinct_nontrivial"] = 1, 2
+                return v.finish()
             raise MachineryError("crypt driver failed:\n" + out[-3000:])
         old = cc.obs_cfg
         cc.obs_cfg = lambda inv: "SPECIFICATION Spec\nINVARIANTS " + " ".join(inv) + "\nCHECK_DEADLOCK FALSE\n"
